@@ -151,6 +151,10 @@ class Impl:
             self.kernels[py](s, float(t), a, o)
         except IndexError:
             return "OOB"
+        except Exception as e:  # noqa: BLE001 - a controller/system is a total function of (state, t, parameters)
+            ck.spec(False, "kernel_raises", f"{py} raised {type(e).__name__}: {e} instead of returning its documented value",
+                    {"kernel": py, "state": [float(x) for x in state], "t": float(t), "arg": [float(x) for x in arg]})
+            return f"RAISED:{type(e).__name__}"
         ck.spec(s.tobytes() == sb and a.tobytes() == ab, "inputs_not_modified",
                 f"{py} modified its input arrays", {"kernel": py, "state": [float(x) for x in state],
                                                   "arg": [float(x) for x in arg],
